@@ -251,11 +251,24 @@ def gen_plan(seed):
             ops.append({'k': 'build', 's': k, 'e': e, 'o': oi})
             occ[k] = oi
         cfg['variable_sweep'] = len(vs)
+    if not crowd and nv <= 6 and rng.random() < 0.3:
+        # the other usual way to start: a diagram per variable under every
+        # ordering in use, everything else built by combining them
+        cfg['literals_first'] = True
+        if nslots < 2 * nv + 2:
+            nslots = cfg['nslots'] = 2 * nv + 2
+        k = 0
+        for oi in range(1 if cfg['one_ordering'] else min(norder, 2)):
+            for v in VARS:
+                ops.append({'k': 'build', 's': k, 'e': ['v', v], 'o': oi})
+                occ[k] = oi
+                k += 1
     for step in range(cfg['steps']):
         filling = crowd and len(occ) < nslots - 6
         kinds = [('build', 14 if filling else 4)]
         if occ:
-            kinds += [('combine', 5), ('invert', 2), ('restrict', 2),
+            kinds += [('combine', 12 if cfg.get('literals_first') else 5),
+                      ('invert', 2), ('restrict', 2),
                       ('dnf', 1), ('bad_combine', cfg['w_bad']),
                       ('drop', 0.5 if filling else
                        (3 if crowd else cfg['w_drop'])),
